@@ -1352,4 +1352,229 @@ theorem unified_of_single (db : Db) (e : Entry) : Unified db [e] := by
   simp only [List.mem_singleton] at ha hb; subst ha; subst hb
   exact ⟨fun _ => rfl, fun _ => h⟩
 
+/-! ### the fold `joined` lists every unit once, with its accumulated exponent -/
+
+def lookupJ (u : Sym) : List (Sym × Int) → Option Int
+  | [] => none
+  | (w, t) :: rest => if w == u then some t else lookupJ u rest
+
+theorem lookupJ_addJoined (u w : Sym) (x : Int) (acc : List (Sym × Int)) :
+    lookupJ u (addJoined w x acc) = if w = u then some ((lookupJ u acc).getD 0 + x) else lookupJ u acc := by
+  induction acc with
+  | nil =>
+    by_cases h : w = u
+    · subst h; simp [addJoined, lookupJ]
+    · have : (w == u) = false := by simpa using h
+      simp [addJoined, lookupJ, h, this]
+  | cons p acc ih =>
+    obtain ⟨k, t⟩ := p
+    simp only [addJoined]
+    by_cases hk : k = w
+    · subst hk
+      simp only [beq_self_eq_true, ↓reduceIte, lookupJ]
+      by_cases h : k = u
+      · subst h; simp
+      · have : (k == u) = false := by simpa using h
+        simp [this, h]
+    · have hkw : (k == w) = false := by simpa using hk
+      simp only [hkw, Bool.false_eq_true, ↓reduceIte, lookupJ, ih]
+      by_cases h : k = u
+      · subst h
+        have : ¬ w = k := fun e => hk e.symm
+        simp [this]
+      · have : (k == u) = false := by simpa using h
+        simp [this]
+
+theorem lookupJ_joinedFrom (u : Sym) : ∀ (L : List Entry) (acc : List (Sym × Int)),
+    lookupJ u (joinedFrom acc L) =
+      if (∃ e ∈ L, e.unit = u) ∨ (lookupJ u acc).isSome then some ((lookupJ u acc).getD 0 + unitTotal u L)
+      else none := by
+  intro L
+  induction L with
+  | nil =>
+    intro acc
+    simp only [joinedFrom, unitTotal, List.not_mem_nil, false_and, exists_false, false_or, add_zero]
+    cases h : lookupJ u acc <;> simp
+  | cons e L ih =>
+    intro acc
+    simp only [joinedFrom, ih, lookupJ_addJoined, unitTotal]
+    by_cases he : e.unit = u
+    · subst he
+      simp only [↓reduceIte, Option.isSome_some, or_true, Option.getD_some, List.mem_cons, exists_eq_or_imp, true_or,
+        beq_self_eq_true]
+      congr 1; ring
+    · have hb : (e.unit == u) = false := by simpa using he
+      simp only [he, ↓reduceIte, List.mem_cons, exists_eq_or_imp, false_or, hb, Bool.false_eq_true, zero_add]
+
+/-- keys of an accumulator are pairwise different -/
+def KeysNodup (acc : List (Sym × Int)) : Prop := (acc.map Prod.fst).Nodup
+
+theorem keys_addJoined (w : Sym) (x : Int) (acc : List (Sym × Int)) (k : Sym) :
+    k ∈ (addJoined w x acc).map Prod.fst ↔ k ∈ acc.map Prod.fst ∨ k = w := by
+  induction acc with
+  | nil => simp [addJoined]
+  | cons p acc ih =>
+    obtain ⟨a, t⟩ := p
+    simp only [addJoined]
+    by_cases ha : a = w
+    · subst ha
+      simp only [beq_self_eq_true, ↓reduceIte, List.map_cons, List.mem_cons]
+      tauto
+    · have : (a == w) = false := by simpa using ha
+      simp only [this, Bool.false_eq_true, ↓reduceIte, List.map_cons, List.mem_cons, ih]
+      tauto
+
+theorem keysNodup_addJoined (w : Sym) (x : Int) (acc : List (Sym × Int)) (h : KeysNodup acc) :
+    KeysNodup (addJoined w x acc) := by
+  unfold KeysNodup at *
+  induction acc with
+  | nil => simp [addJoined]
+  | cons p acc ih =>
+    obtain ⟨a, t⟩ := p
+    simp only [addJoined]
+    have hn := List.nodup_cons.mp h
+    by_cases ha : a = w
+    · subst ha; simpa using h
+    · have hb : (a == w) = false := by simpa using ha
+      simp only [hb, Bool.false_eq_true, ↓reduceIte, List.map_cons]
+      apply List.nodup_cons.mpr
+      refine ⟨?_, ih hn.2⟩
+      intro hmem
+      rcases (keys_addJoined w x acc a).mp hmem with h1 | h1
+      · exact hn.1 h1
+      · exact ha h1
+
+theorem keysNodup_joinedFrom : ∀ (L : List Entry) (acc : List (Sym × Int)), KeysNodup acc → KeysNodup (joinedFrom acc L) := by
+  intro L
+  induction L with
+  | nil => intro acc h; exact h
+  | cons e L ih => intro acc h; exact ih _ (keysNodup_addJoined _ _ _ h)
+
+theorem mem_iff_lookupJ {acc : List (Sym × Int)} (h : KeysNodup acc) (u : Sym) (t : Int) :
+    (u, t) ∈ acc ↔ lookupJ u acc = some t := by
+  unfold KeysNodup at h
+  induction acc with
+  | nil => simp [lookupJ]
+  | cons p acc ih =>
+    obtain ⟨a, s⟩ := p
+    have hn := List.nodup_cons.mp h
+    simp only [List.mem_cons, Prod.mk.injEq, lookupJ]
+    by_cases ha : a = u
+    · subst ha
+      simp only [beq_self_eq_true, ↓reduceIte, Option.some.injEq, true_and]
+      constructor
+      · rintro (h1 | h1)
+        · exact h1.symm
+        · exact absurd (List.mem_map.mpr ⟨(a, t), h1, rfl⟩) hn.1
+      · intro h1; left; exact h1.symm
+    · have hb : (a == u) = false := by simpa using ha
+      simp only [hb, Bool.false_eq_true, ↓reduceIte, ← ih hn.2]
+      constructor
+      · rintro (h1 | h1)
+        · exact absurd h1.1.symm ha
+        · exact h1
+      · intro h1; right; exact h1
+
+/-- **`GetComposingUnitsJoiningExponents`**: the pairs (unit, accumulated exponent) of the units that occur -/
+theorem mem_joined (L : List Entry) (u : Sym) (t : Int) :
+    (u, t) ∈ joined L ↔ (∃ e ∈ L, e.unit = u) ∧ t = unitTotal u L := by
+  have hn : KeysNodup (joined L) := keysNodup_joinedFrom L [] (by simp [KeysNodup])
+  rw [mem_iff_lookupJ hn, joined, lookupJ_joinedFrom]
+  simp only [lookupJ, Option.isSome_none, Bool.false_eq_true, or_false, Option.getD_none, zero_add]
+  constructor
+  · intro h
+    split at h
+    · rename_i hex; injection h with h; exact ⟨hex, h.symm⟩
+    · cases h
+  · rintro ⟨hex, ht⟩
+    simp [hex, ht]
+
+
+theorem sameSet_of_totals (L1 L2 : List Entry) (hu : ∀ u, (∃ e ∈ L1, e.unit = u) ↔ (∃ e ∈ L2, e.unit = u))
+    (ht : ∀ u, unitTotal u L1 = unitTotal u L2) : sameSet (joined L1) (joined L2) = true := by
+  unfold sameSet
+  simp only [Bool.and_eq_true, List.all_eq_true, List.contains_iff_mem]
+  constructor
+  · rintro ⟨u, t⟩ hp
+    have := (mem_joined L1 u t).mp hp
+    exact (mem_joined L2 u t).mpr ⟨(hu u).mp this.1, by rw [this.2, ht u]⟩
+  · rintro ⟨u, t⟩ hp
+    have := (mem_joined L2 u t).mp hp
+    exact (mem_joined L1 u t).mpr ⟨(hu u).mpr this.1, by rw [this.2, ht u]⟩
+
+/-- every quantity type that occurs in the quantity has a non-zero exponent (what `C04.no_zero_dimension`
+proves of every product/quotient/power; trivially true of a simple quantity) -/
+def NonZeroDims (db : Db) (q : Quantity) : Prop :=
+  ∀ e ∈ q.entries, ∀ qt, hasType db qt e = true → dim db qt q.entries ≠ 0
+
+theorem exists_hasType_of_dim_ne {db : Db} {qt : Sym} (L : List Entry) (h : dim db qt L ≠ 0) :
+    ∃ e ∈ L, hasType db qt e = true := by
+  by_contra hn
+  apply h
+  apply dim_zero_of_none
+  intro e he
+  by_cases hh : hasType db qt e = true
+  · exact absurd ⟨e, he, hh⟩ hn
+  · simpa using hh
+
+/-- **equal dimensions ⇒ the comparison of the joined composing units succeeds** -/
+theorem sameSet_of_dims {db : Db} {used : List (Sym × Sym)} {L1 L2 L2o : List Entry}
+    (hg : ∀ e ∈ L1 ++ L2, Good db used e) (hce : L2.map catExp = L2o.map catExp)
+    (hd : ∀ qt, dim db qt L1 = dim db qt L2o)
+    (n1 : ∀ e ∈ L1, ∀ qt, hasType db qt e = true → dim db qt L1 ≠ 0)
+    (n2 : ∀ e ∈ L2o, ∀ qt, hasType db qt e = true → dim db qt L2o ≠ 0) :
+    sameSet (joined L1) (joined L2) = true := by
+  have hd' : ∀ qt, dim db qt L1 = dim db qt L2 := fun qt => by rw [hd qt, dim_of_catExp _ _ hce]
+  have hU := unified_of_good hg
+  apply sameSet_of_totals L1 L2 _ (unitTotal_eq_of_dims hg hd')
+  intro u
+  constructor
+  · rintro ⟨e, he, heu⟩
+    obtain ⟨r, _, hc, _⟩ := hg e (List.mem_append_left _ he)
+    have ht : hasType db r.qtype e = true := hasType_iff.mpr hc
+    have hne : dim db r.qtype L2 ≠ 0 := by rw [← hd']; exact n1 e he _ ht
+    obtain ⟨e', he', ht'⟩ := exists_hasType_of_dim_ne L2 hne
+    refine ⟨e', he', ?_⟩
+    rw [← heu]
+    exact (hU e (List.mem_append_left _ he) e' (List.mem_append_right _ he') _ ht).mp ht'
+  · rintro ⟨e', he', heu⟩
+    obtain ⟨r, _, hc, _⟩ := hg e' (List.mem_append_right _ he')
+    have ht' : hasType db r.qtype e' = true := hasType_iff.mpr hc
+    have hmem : catExp e' ∈ L2o.map catExp := by rw [← hce]; exact List.mem_map.mpr ⟨e', he', rfl⟩
+    obtain ⟨e0, he0, hce0⟩ := List.mem_map.mp hmem
+    have hcat : e0.cat = e'.cat := by simp only [catExp, Prod.mk.injEq] at hce0; exact hce0.1
+    have ht0 : hasType db r.qtype e0 = true := by rw [hasType_cat (db := db) (qt := r.qtype) hcat]; exact ht'
+    have hne : dim db r.qtype L1 ≠ 0 := by rw [hd]; exact n2 e0 he0 _ ht0
+    obtain ⟨e, he, ht⟩ := exists_hasType_of_dim_ne L1 hne
+    refine ⟨e, he, ?_⟩
+    rw [← heu]
+    exact ((hU e' (List.mem_append_right _ he') e (List.mem_append_left _ he) _ ht').mp ht)
+
+
+/-- converse of `unitTotal_eq_of_dims`: on matched lists equal joined exponents mean equal dimensions -/
+theorem dim_eq_of_totals {db : Db} {used : List (Sym × Sym)} {L1 L2 : List Entry}
+    (hg : ∀ e ∈ L1 ++ L2, Good db used e) (ht : ∀ u, unitTotal u L1 = unitTotal u L2) (qt : Sym) :
+    dim db qt L1 = dim db qt L2 := by
+  by_cases hex : ∃ e ∈ L1 ++ L2, hasType db qt e = true
+  · obtain ⟨e, he, hte⟩ := hex
+    have hU := unified_of_good hg
+    have hiff : ∀ x ∈ L1 ++ L2, hasType db qt x = (x.unit == e.unit) := by
+      intro x hx
+      have := hU e he x hx qt hte
+      by_cases hh : hasType db qt x = true
+      · rw [hh]; have := this.mp hh; simp [this]
+      · have hne : x.unit ≠ e.unit := fun h => hh (this.mpr h)
+        have : (x.unit == e.unit) = false := by simpa using hne
+        rw [this]; simpa using hh
+    rw [dim_eq_unitTotal L1 (fun x hx => hiff x (List.mem_append_left _ hx)),
+      dim_eq_unitTotal L2 (fun x hx => hiff x (List.mem_append_right _ hx))]
+    exact ht e.unit
+  · have hn : ∀ e ∈ L1 ++ L2, hasType db qt e = false := by
+      intro e he
+      by_cases hh : hasType db qt e = true
+      · exact absurd ⟨e, he, hh⟩ hex
+      · simpa using hh
+    rw [dim_zero_of_none L1 (fun e he => hn e (List.mem_append_left _ he)),
+      dim_zero_of_none L2 (fun e he => hn e (List.mem_append_right _ he))]
+
 end Barril.Alg
